@@ -92,9 +92,15 @@ def e2cache_jobs(ctx, prop, depth, budget, shards, also="", proxies=("0", "1"), 
     return jobs
 
 
+def race_jobs(ctx, reps):
+    b = ctx.bin(DISK, race=True)
+    return [Job(b, "TestVfRace", name="E6-race:" + mode, timeout=1800, env={"VERIF_PARAM_MODE": mode, "VERIF_PARAM_REPS": str(reps)}) for mode in ("zstd", "uncompressed")]
+
+
 def check_C07(ctx):
     th = ctx.thorough()
-    jobs = e1_jobs(ctx, "C07", E1_SCENARIOS_QUICK, 3 if th else 2, 4 if th else 1, 1500 if th else 100)
+    jobs = e1_jobs(ctx, "C07", E1_SCENARIOS_QUICK + ["S9-findmissing-vs-puts"], 3 if th else 2, 4 if th else 1, 1500 if th else 100)
+    jobs += race_jobs(ctx, 200 if th else 25)
     return dict(level="model_checking", jobs=jobs,
                 rule="stateless DFS over all schedules (preemption-bounded) of each scenario on the real disk cache under the controlled scheduler; an evaluation is one complete execution; distinct = distinct observed operation-result histories per scenario",
                 assumptions=[
@@ -645,7 +651,12 @@ def setup():
     try:
         V.ensure_ovlgen()
         ctx = Ctx("setup", "quick", 1)
-        ctx.bin(DISK)
+        # warm the Go build cache for every driver binary
+        for pkg in (DISK, GRID, ".", "./config", "./cache/s3proxy", "./cache/azblobproxy"):
+            ctx.bin(pkg)
+        ctx.bin(DISK, race=True)
+        import e5
+        e5.verify(os.path.join(ctx.work, "spin"), 2, 1)
     except V.Broken as ex:
         print("BROKEN-HARNESS setup:", ex)
         return 2
